@@ -108,6 +108,7 @@ static void build(vf::Plan &plan, const vf::Opts &o)
                },
                [](uint64_t i) { return strf("value %X", i < 32 ? (1u << i) : (0xFFFFFFFFu >> (i - 32))); });
     add_position_sweep(plan, T ? 300 : 70, all);
+    add_position_sweep(plan, T ? 80 : 40, all, 7);
 #endif
     vf_early::add_stage(plan);
 }
